@@ -119,6 +119,7 @@ static void dump_opt(FILE * f, const nlopt_opt o)
     fprintf(f, " child=%d work=%d", o->force_stop_child != NULL, o->work != NULL);
 }
 
+static long npre = 0;          /* preconditioner calls of the current run */
 static void hook_event(int id, const void *obj, const double *x, double v, int r)
 {
     switch (id) {
@@ -165,6 +166,9 @@ static void hook_event(int id, const void *obj, const double *x, double v, int r
         if (depth >= 2 && id != 41) break;
         fprintf(out, "E %d d=%d val=", id, depth); phex(out, v);
         fprintf(out, " grad="); phexlist(out, x, r); fprintf(out, "\n");
+        break;
+    case 42:                   /* pre_max exit: the preconditioner result as the algorithm receives it */
+        if (npre <= 40) { fprintf(out, "Q vpre="); phexlist(out, x, r); fprintf(out, "\n"); }
         break;
     case 31:                   /* memoize exit: incumbent */
         if (depth >= 2) break;
@@ -329,7 +333,6 @@ static void mconstraint(unsigned m, double *result, unsigned n_, const double *x
 }
 
 /* preconditioner (approximate Hessian times v): a fixed positive diagonal, negated together with the objective */
-static long npre = 0;
 static void precond(unsigned n_, const double *x_, const double *v, double *vpre, void *data)
 {
     unsigned i;
